@@ -15,7 +15,7 @@ import (
 func init() {
 	core.Register(&core.Prop{
 		ID: "C15",
-		Rule: "case = one base geometry of one of the eight types (members in distinct cells, distinct vertices >= 200 tol apart, every ring closed with a unique smallest-X anchor vertex) and ~40 derived partners with a truth value known by construction: positives = every coordinate perturbed by < 0.9 tol, combined with member/ring/item permutations and ring-start rotations; negatives = other type (all 56 ordered type pairs), member inserted/deleted (also empty members), vertex inserted/deleted, line string reversed, one vertex displaced by 1.5-100 tol; every pair is evaluated in both directions (symmetry), plus unrelated random pairs; " +
+		Rule: "case = one base geometry of one of the eight types (5% of the multi-part bases have 60..140 members; members in distinct cells, distinct vertices >= 200 tol apart, every ring closed with a unique smallest-X anchor vertex) and ~40 derived partners with a truth value known by construction: positives = every coordinate perturbed by < 0.9 tol, combined with member/ring/item permutations and ring-start rotations; negatives = other type (all 56 ordered type pairs), member inserted/deleted (also empty members), vertex inserted/deleted, line string reversed, one vertex displaced by 1.5-100 tol; every pair is evaluated in both directions (symmetry), plus unrelated random pairs; " +
 			"an evaluation is one ordered Similar call judged; non-trivial = derived pair (distinct by hash of both geometries)",
 		Assumptions: []string{"distinct members separated by >> tol so that matching is unambiguous (as the property states)", "rings are closed; the anchor (smallest X) is unique by >= 200 tol so that a legal perturbation cannot move it"},
 		Phases: []core.Phase{{Name: "pairs", NumCases: func(t string) int {
@@ -27,7 +27,7 @@ func init() {
 		Run: run,
 		Floors: func(t string) map[string]int64 {
 			m := map[string]int64{"pos.perturbed": 5000, "pos.permuted": 2000, "pos.ring_rotated": 1000, "neg.type": 5000, "neg.member_inserted": 1000, "neg.member_deleted": 1000, "neg.vertex_inserted": 1000,
-				"neg.vertex_deleted": 1000, "neg.reversed": 300, "neg.displaced": 2000, "unrelated": 1000}
+				"neg.vertex_deleted": 1000, "neg.reversed": 300, "neg.displaced": 2000, "unrelated": 1000, "base.many_members_60_to_140": 100}
 			for _, n := range typeNames {
 				m["base."+n] = 100
 			}
@@ -42,6 +42,15 @@ type builder struct {
 	r    *gen.R
 	tol  float64
 	cell int // next free cell
+	many bool // top-level multi-geometries get 60..140 members (sizes on both sides of 64 and 128)
+}
+
+// members returns the member count of a top-level multi-geometry.
+func (b *builder) members(depth, lo, hi int) int {
+	if b.many && depth == 0 {
+		return b.r.IntRange(60, 140)
+	}
+	return b.r.IntRange(lo, hi)
 }
 
 // cellOrigin returns the centre of the next unused cell.
@@ -97,11 +106,11 @@ func (b *builder) build(kind int, depth int) geom.Geom {
 	case 0:
 		return b.pts(1)[0]
 	case 1:
-		return geom.MultiPoint(b.pts(r.IntRange(1, 5)))
+		return geom.MultiPoint(b.pts(b.members(depth, 1, 5)))
 	case 2:
 		return geom.LineString(b.pts(r.IntRange(2, 6)))
 	case 3:
-		m := make(geom.MultiLineString, r.IntRange(1, 4))
+		m := make(geom.MultiLineString, b.members(depth, 1, 4))
 		for i := range m {
 			m[i] = b.pts(r.IntRange(2, 5))
 		}
@@ -113,7 +122,7 @@ func (b *builder) build(kind int, depth int) geom.Geom {
 		}
 		return m
 	case 5:
-		m := make(geom.MultiPolygon, r.IntRange(1, 3))
+		m := make(geom.MultiPolygon, b.members(depth, 1, 3))
 		for i := range m {
 			pg := make(geom.Polygon, r.IntRange(1, 2))
 			for j := range pg {
@@ -123,7 +132,7 @@ func (b *builder) build(kind int, depth int) geom.Geom {
 		}
 		return m
 	case 6:
-		m := make(geom.GeometryCollection, r.IntRange(1, 4))
+		m := make(geom.GeometryCollection, b.members(depth, 1, 4))
 		for i := range m {
 			k := r.Intn(8)
 			if k == 6 && depth >= 1 {
@@ -430,6 +439,11 @@ func run(c *core.Ctx, idx int) {
 	tol := []float64{1e-9, 1e-6, 1e-3, 1, 7.5, 1e3}[r.Intn(6)] * r.Range(0.5, 2)
 	b := &builder{r: r, tol: tol}
 	kind := r.Intn(8)
+	if r.Chance(0.05) {
+		b.many = true
+		kind = []int{1, 3, 5, 6}[r.Intn(4)]
+		c.Count("base.many_members_60_to_140")
+	}
 	g := b.build(kind, 0)
 	c.Count("base." + tname(g))
 	if c.WantSample() && kind >= 3 {
